@@ -41,19 +41,33 @@ MAX_LATE_RETRIES = 2         # executables whose time-out re-runs may still star
 MAX_FAILURES = 60
 
 
+# A collection costs time proportional to the young generation (57.6 MB by default: 15 ms per collection on an
+# idle machine, 0.5 - 2 s when the machine is busy in the kernel), the programs here need a few KB.  With a
+# 1 MB young generation `--gc-stress` (a full collection at every allocation; every `mtx.lock(|| ...)`
+# allocates its lambda) costs 0.1 - 1 s per program instead of 5 - 100 s, and the programs that allocate
+# garbage also get collections of their own accord while threads are queued.
+SMALL = "--gc-young-size=1M --max-heap-size=16M"
+STRESS_SMALL = "--gc-stress " + SMALL
+STRESS_MINOR_SMALL = "--gc-stress-minor " + SMALL
+STRESS_WORKER2_SMALL = "--gc-worker 2 --gc-stress " + SMALL
+STRESS_OTHER = "--gc-stress --max-heap-size=8M"
+
+
 def builds_for(tier, index=0):
     """[(backend label, compile flags, [DORA_FLAGS values])] for program number `index`.
     Non-default collectors only with the optimizing back end: the baseline one aborts in the write-barrier
     slow path with them (`not implemented`, gc.rs to_swiper) - a defect that belongs to C03.
-    quick: a collection at every allocation (`--gc-stress`, 5 s alone on an idle machine, 25 s and more with
-    8 of them in parallel on a busy one) runs with ONE back end per program, alternating."""
+    `--gc-stress` with the default heap size is not used: on a busy machine a program with 120 lock operations
+    (about 500 allocations) did not finish within 120 s in three runs, burning processor time all the while -
+    slowness, not a hang; the same program passes with the 1 MB young generation."""
     if tier == "thorough":
-        return [("cannon", ["--cannon"], ["", "--gc-stress", "--gc-worker 2"]),
-                ("boots", [], ["", "--gc-stress", "--gc-worker 2"]),
-                ("boots-gc-copy", ["--gc=copy"], ["", "--gc-stress"]),
-                ("boots-gc-sweep", ["--gc=sweep"], [""])]
-    return [("cannon", ["--cannon"], ["", "--gc-stress"] if index % 2 == 0 else [""]),
-            ("boots", [], ["", "--gc-stress"] if index % 2 == 1 else [""])]
+        full = ["", STRESS_SMALL, STRESS_MINOR_SMALL, "--gc-worker 2", STRESS_WORKER2_SMALL]
+        return [("cannon", ["--cannon"], full),
+                ("boots", [], full),
+                ("boots-gc-copy", ["--gc=copy"], ["", STRESS_OTHER]),
+                ("boots-gc-sweep", ["--gc=sweep"], ["", STRESS_OTHER])]
+    return [("cannon", ["--cannon"], ["", STRESS_SMALL]),
+            ("boots", [], ["", STRESS_SMALL])]
 
 
 # --------------------------------------------------------------------------------------------- tool chain
@@ -361,6 +375,5 @@ def run_workloads(ctx, tier, deadline_s):
                 compiled=st["compiled"], compile_timeouts=st["compile_timeouts"],
                 failures_dropped=st["failures_dropped"],
                 configs=[dict(backend=b[0], compile_flags=b[1], dora_flags=b[2]) for b in builds_for(tier, 0)],
-                gc_stress_alternates_between_backends=(tier != "thorough"),
                 compile_s=stats(compile_times), run_s=dict((k, stats(v)) for k, v in run_times.items()),
                 toolchain=tc["hash"], seed=seed, tier=tier, run_timeout_s=timeout)
